@@ -159,7 +159,10 @@ def pcr_cases(thorough, seed):
                 dist = taddr - (second + 1 + size)
                 valid = True if mn.startswith("L") else (-128 <= dist <= 127)
                 yield {"id": "leadorg/%s/%s/%X/%X" % (mn, carrier.split()[0], first, second), "lines": lines, "form": "rel.label-before-leading-org",
-                       "traits": {"zone": "n/a", "short": not mn.startswith("L")}, "src": [("S", "T", 0)], "valid": valid if mn.startswith("L") or valid else False, "mn": mn}
+                       "traits": {"zone": "n/a", "short": not mn.startswith("L")}, "src": [("S", "T", 0)],
+                       # two ORGs in one program may be refused altogether (C02); accepted, the branch has to reach the label, and a
+                       # short branch that cannot must never be accepted
+                       "valid": None if valid else False, "mn": mn}
     # branches whose span contains 8-bit and 16-bit label,PCR statements
     for bm in ("BRA", "BNE", "LBRA", "BSR"):
         for npcr in (1, 2, 3):
